@@ -132,8 +132,17 @@ def execute(case, ctx):
                 lo = min(ns); hi = max(ns); w = hi - lo + 1
                 pos = ((n1 - lo) * w + (n2 - lo)) * w + (n3 - lo)
                 gam = cx(V["value"][pos])
-                if not abs(gam) <= tol:
-                    return fail("irreducible vertex Gamma_%d%d%d%d(%d,%d,%d) = %r for a quadratic Hamiltonian (tol %.3e)" % (i, j, k, l, n1, n2, n3, gam, tol), "vertex-nonzero")
+                # the vertex is formed from pomerol's own G values, each of which may deviate by its documented-drop bound
+                vt = tol
+                z1 = 1j * (2 * n1 + 1) * math.pi / beta; z2 = 1j * (2 * n2 + 1) * math.pi / beta
+                if n1 == n3:
+                    vt += beta * (abs(Gref[n1][i, k]) * ref.G_drop_bound(j, l, z2) + abs(Gref[n2][j, l]) * ref.G_drop_bound(i, k, z1)
+                                  + ref.G_drop_bound(j, l, z2) * ref.G_drop_bound(i, k, z1))
+                if n2 == n3:
+                    vt += beta * (abs(Gref[n1][i, l]) * ref.G_drop_bound(j, k, z2) + abs(Gref[n2][j, k]) * ref.G_drop_bound(i, l, z1)
+                                  + ref.G_drop_bound(j, k, z2) * ref.G_drop_bound(i, l, z1))
+                if not abs(gam) <= vt:
+                    return fail("irreducible vertex Gamma_%d%d%d%d(%d,%d,%d) = %r for a quadratic Hamiltonian (tol %.3e)" % (i, j, k, l, n1, n2, n3, gam, vt), "vertex-nonzero")
                 classes.append("vertex-checked")
             if "nondiagonal-h" in classes and (n1 == n3 or n2 == n3 or n1 + n2 == -1) and S > 0:
                 nontrivial = True
